@@ -46,8 +46,8 @@ func init() {
 				c28SubscriptRe.MatchString(src(t))
 		}},
 		{"assoc-literal-element-without-key", func(t c28Case, msg, frame string) bool {
-			// declare -A a=(1 2)
-			return frame == "interp.(*Runner).assignVal" && strings.HasPrefix(msg, "interface conversion: syntax.ArithmExpr is nil") && c28AssocLitRe.MatchString(src(t))
+			// declare -A a=(1 2), declare -A a=([1+1]=v): an element of an associative array literal whose subscript is missing or not a word
+			return frame == "interp.(*Runner).assignVal" && strings.HasPrefix(msg, "interface conversion: syntax.ArithmExpr is ") && strings.HasSuffix(msg, "not *syntax.Word") && c28AssocLitRe.MatchString(src(t))
 		}},
 		{"empty-variable-name", func(t c28Case, msg, frame string) bool {
 			// unset '', test -v '', a nameref with an empty target (declare -n r=; echo $r)
